@@ -189,6 +189,21 @@ def identity_residuals(v, omega, gamma, vdg):
     return r1, r2
 
 
+def quadrature_bounds(v, gamma, vdg):
+    """A-posteriori bound of the composite-trapezoid error of the two integrals, scaled like the
+    residuals: on a cell of width h where the integrand moves by |df| (monotone pieces, jumps included)
+    the trapezoid error is at most h |df| / 2; summed over the cells."""
+    lnv = numpy.log(numpy.asarray(v, float))
+    gamma = numpy.asarray(gamma, float)
+    vdg = numpy.asarray(vdg, float)
+    h = numpy.diff(lnv)
+    s1 = max(float(cumtrapz(numpy.abs(gamma), lnv)[-1]), 1e-300)
+    s2 = max(float(cumtrapz(numpy.abs(vdg), lnv)[-1]), float(gamma.max() - gamma.min()), 1e-300)
+    q1 = float((h * numpy.abs(numpy.diff(gamma))).sum() / 2) / s1
+    q2 = float((h * numpy.abs(numpy.diff(vdg))).sum() / 2) / s2
+    return q1, q2
+
+
 def law_distance(law_a, law_b, v, v0):
     """max |ln w_a - ln w_b| over the grid v."""
     wa, _, _ = triple(law_a, v, v0)
